@@ -103,6 +103,10 @@ def restore_violations(case, obs):
                     sub = "arrays:" + ",".join(sorted(names))
                 out.append((f"restore:{ts}:{what}:{sub}",
                             f"trial {k} ({tr['name']}, {what}): {sub} differ after the trial"))
+        if a.get("bits") != b.get("bits") and all(a[key] == b[key] for key in ("arrays", "cell", "pbc")):
+            names = sorted(n for n in set(a["bits"]) | set(b["bits"]) if a["bits"].get(n) != b["bits"].get(n))
+            out.append((f"restore:{ts}:{what}:bits:" + ",".join(names),
+                        f"trial {k} ({tr['name']}, {what}): equal values but not bit for bit (sign of a zero?) in {names}"))
         if a["fixed"] != b["fixed"] or a["nconstraints"] != b["nconstraints"]:
             out.append((f"restore:{ts}:{what}:constraints",
                         f"trial {k}: constrained atoms {b['fixed']} -> {a['fixed']}"))
@@ -305,11 +309,7 @@ class RunBoundaries(Histories):
             if ev.get("mom") is not None:
                 newmom = np.array([ev["mom"][i % len(ev["mom"])] for i in range(n)], float).reshape(n, 3)
                 sim.atoms.set_array("momenta", newmom, float, (3,))
-            import warnings
-
-            with warnings.catch_warnings():
-                warnings.simplefilter("ignore")
-                sim.mc.validate_simulation()
+            machine.start_run(sim.mc)
             events.append((len(out["snapshots"]), "U" + sim.snapshot("T")[1:],
                            [[machine._int(x) for x in p] for p in new], ev["cell"],
                            None if newmom is None else [[machine._int(x) for x in p] for p in newmom]))
